@@ -106,6 +106,19 @@ CLAIMED = {
          "serialisation abstracted (C07).",
     technique="contract-based deductive verification: exception-freedom and frame VCs from the real AST by symbolic execution, z3",
     design="4 C12"),
+ "C14": dict(
+    category="proof",
+    text="Deductive: the real EventSource.raise_event is verified with a loop invariant over an arbitrary handler table (any number of handlers per event "
+         "kind, each plain or coroutine, plain Write handlers may veto, plain Read handlers may refresh the value): every handler of exactly the raised kind "
+         "is invoked exactly once, coroutine functions become exactly one task each and are not run synchronously, handlers of other kinds are untouched. On "
+         "top of it, for text, number, light and BLOB elements of a vector of any size, direct assignment, set_value, a client write and a read are executed "
+         "symbolically and proved to follow the statement: Write handlers see the old value and the requested payload; a veto changes and publishes nothing; "
+         "otherwise the value is stored, exactly one update carrying it is serialised, Change handlers are invoked exactly once with (old, new) iff the value "
+         "changed, in the order Write -> publication -> Change; assignment raises no Write; a read returns the value as refreshed by Read handlers.",
+    note="Trusted: PyVC + encoding; abstract handler model; asyncio create_task only records the task; serialisation point abstraction; switch elements are "
+         "C09's; BLOB 'changed' is object identity; handler registration (dir() scan, @on) not on the verified path.",
+    technique="contract-based deductive verification: loop invariant over a symbolic handler table, ghost invocation counters and ordered trace, z3",
+    design="4 C14"),
 }
 
 NOT_YET = "check not built yet (work in progress)"
